@@ -59,6 +59,17 @@ CONSTANTS Variants,        \* set of [prog |-> STRING, on |-> set of optional st
                                \* (opened directly: no temp file, no backup) (seed3-C20-2)
           DevMoveBeforeClose,  \* deviation: gen_params flushes the writer inside the `with` block, before the handle is closed
                                \* (seed5-C20-1); refutes SuccessState only for dev = "cross"
+          EnvInits,        \* the initial directories combined with env = "faulty".  The variant also carries env: "stable" = the
+                           \* process' environment stays as it was at start-up; "faulty" = ONE environment fault strikes while
+                           \* the process is alive (Fault): the writer's staging directory (tempfile.tempdir / TMPDIR, cached by
+                           \* the process at first use) is removed ("tmp_gone") or stops accepting new files - read-only, full,
+                           \* quota - ("tmp_ro"), or the output directory stops accepting new entries ("out_ro").  A step
+                           \* that needs the lost resource fails BY ITSELF (EnvFail, an OSError in the code), no exception
+                           \* is injected in these behaviours.
+          DevStageFallback,    \* deviation: when the output cannot be staged (temp file cannot be created) the program
+                               \* 'recovers' by opening the output path directly: no temp file, no backup (seed7-C20-2)
+          DevBackupSkip,       \* deviation: when the backup cannot be made (output directory takes no new entries) the
+                               \* flush writes over the existing file in place
           DevRouteDiscard      \* deviation: before the flush the program drops every queued file whose destination is not
                                \* literally its own spelling of the output path; the writer stores the path with the directory
                                \* part resolved, so through a symlinked directory the program drops its own file
@@ -75,8 +86,9 @@ VARIABLES run,     \* 1..Runs
           sub,     \* micro state inside a stage: "idle" | "part" | "find" | "backup" | "move"
           idx,     \* _find_free_path counter
           status,  \* "running" | "crashed" | "done"
-          last     \* label of the last action [kind, stage, when]
-vars == <<run, var, target, fs0, fs, queue, cur, loose, pc, sub, idx, status, last>>
+          last,    \* label of the last action [kind, stage, when]
+          envst    \* environment of the process: "ok" | "tmp_gone" | "tmp_ro" | "out_ro" (see EnvInits)
+vars == <<run, var, target, fs0, fs, queue, cur, loose, pc, sub, idx, status, last, envst>>
 
 (* ------------------------------------------------------------------ *)
 (* names                                                              *)
@@ -134,11 +146,13 @@ Init == /\ run = 1
         /\ \E ini \in Inits : /\ (var.route = "plain" \/ ini \in RouteInits)
                               /\ (var.dev = "same" \/ ini \in DevInits)
                               /\ (var.inout = "no" \/ ini \in InoutInits)
+                              /\ (var.env = "stable" \/ ini \in EnvInits)
                               /\ fs = InitFs(ini, var)
         /\ fs0 = fs
         /\ queue = <<>> /\ cur = Nil /\ loose = <<>>
         /\ pc = 0 /\ sub = "idle" /\ idx = 0 /\ status = "running"
         /\ last = [kind |-> "init", stage |-> "-", when |-> "-"]
+        /\ envst = "ok"
 
 Running == status = "running"
 Done(s) == last' = [kind |-> "stage", stage |-> s, when |-> "-"]
@@ -149,26 +163,39 @@ HasEntry(t) == \E i \in 1..Len(queue) : queue[i].target = t
 \* any stage that does not touch files: reading, mapping, links, templates, building, backmapping ...
 Work == /\ Running /\ sub = "idle" /\ NextStage # "-" /\ NextStage \notin Special
         /\ pc' = pc + 1 /\ Done(NextStage)
-        /\ UNCHANGED <<run, var, target, fs0, fs, queue, cur, loose, sub, idx, status>>
+        /\ UNCHANGED <<envst, run, var, target, fs0, fs, queue, cur, loose, sub, idx, status>>
 
 \* open(path, "w") follows a symbolic link: the bytes go to the file the path resolves to
 Phys(t) == IF fs[t] = "link" THEN "tgt" ELSE t
+TmpBroken == envst \in {"tmp_gone", "tmp_ro"}     \* no new temporary file can be created
 Direct == DevPlainOpen \/ (DevLinkDirect /\ fs[target] = "link") \/ (DevInplaceInput /\ var.inout # "no" /\ fs[target] = "inp")
+          \/ (DevStageFallback /\ TmpBroken)
+\* ---- environment faults --------------------------------------------------------------------------------------------
+\* the step the program is about to take needs a resource the environment no longer provides:
+\*  - mkstemp in a staging directory that is gone / takes no new files (DeferredFileWriter.open -> _open_tmp_file)
+\*  - open(path, "w") of a file that does not exist yet in a directory that takes no new entries
+\*  - the flush's moves (backup: rename of the old entry; final: rename or copy of the temp file) into such a directory
+EnvBlocks ==
+  \/ sub = "idle" /\ NextStage = "open" /\ ~Direct /\ TmpBroken
+  \/ sub = "idle" /\ (NextStage = "popen" \/ (NextStage = "open" /\ Direct)) /\ envst = "out_ro" /\ fs[Phys(target)] = "absent"
+  \/ sub \in {"backup", "move"} /\ cur # Nil /\ envst = "out_ro" /\ ~(DevBackupSkip /\ fs[cur.target] # "absent")
+
 \* DeferredFileWriter.open(path, "w"): a path already in the queue re-opens (truncates) its temp file
 OpenDeferred ==
-        /\ Running /\ sub = "idle" /\ NextStage = "open" /\ ~Direct
+        /\ Running /\ sub = "idle" /\ NextStage = "open" /\ ~Direct /\ ~EnvBlocks
         /\ queue' = IF HasEntry(target) THEN [queue EXCEPT ![QIdx(target)].content = "empty"]
                                         ELSE Append(queue, [target |-> target, content |-> "empty"])
         /\ pc' = pc + 1 /\ Done("open")
-        /\ UNCHANGED <<run, var, target, fs0, fs, cur, loose, sub, idx, status>>
+        /\ UNCHANGED <<envst, run, var, target, fs0, fs, cur, loose, sub, idx, status>>
 
 \* open(path, "w"): gen_seq; or the deviation
 PlainOpen ==
         /\ Running /\ sub = "idle"
         /\ NextStage = "popen" \/ (NextStage = "open" /\ Direct)
+        /\ ~EnvBlocks
         /\ fs' = [fs EXCEPT ![Phys(target)] = "empty"]
         /\ pc' = pc + 1 /\ Done(NextStage)
-        /\ UNCHANGED <<run, var, target, fs0, queue, cur, loose, sub, idx, status>>
+        /\ UNCHANGED <<envst, run, var, target, fs0, queue, cur, loose, sub, idx, status>>
 
 \* serialisation goes to the temp file when the target is queued, else straight to the target (plain handle)
 SetContent(c) == IF NextStage = "write" /\ HasEntry(target)
@@ -176,13 +203,13 @@ SetContent(c) == IF NextStage = "write" /\ HasEntry(target)
                  ELSE /\ fs' = [fs EXCEPT ![Phys(target)] = c] /\ queue' = queue
 WriteBegin == /\ Running /\ sub = "idle" /\ NextStage \in {"write", "pwrite"}
               /\ SetContent(PartC) /\ sub' = "part" /\ Micro(NextStage)
-              /\ UNCHANGED <<run, var, target, fs0, cur, loose, pc, idx, status>>
+              /\ UNCHANGED <<envst, run, var, target, fs0, cur, loose, pc, idx, status>>
 \* gen_params: write_molecule_itp returns with the handle still open (closed by the end of the `with` block = stage "close");
 \* gen_coords: write_gro opens and closes the handle itself
 WriteEnd ==   /\ Running /\ sub = "part"
               /\ SetContent(IF var.prog = "gen_params" THEN "buffered" ELSE NewC)
               /\ sub' = "idle" /\ pc' = pc + 1 /\ Done(NextStage)
-              /\ UNCHANGED <<run, var, target, fs0, cur, loose, idx, status>>
+              /\ UNCHANGED <<envst, run, var, target, fs0, cur, loose, idx, status>>
 \* closing the handle puts the buffered tail where the handle's inode is: the queued temp file, or (after a rename) the target;
 \* after a copy-and-unlink the inode is gone and the tail with it
 Closed(cn) == IF cn = "buffered" THEN NewC ELSE cn
@@ -190,7 +217,7 @@ CloseHandle == /\ Running /\ sub = "idle" /\ NextStage = "close"
                /\ queue' = [i \in 1..Len(queue) |-> [queue[i] EXCEPT !.content = Closed(@)]]
                /\ fs' = [p \in AllPaths |-> Closed(fs[p])]
                /\ pc' = pc + 1 /\ Done("close")
-               /\ UNCHANGED <<run, var, target, fs0, cur, loose, sub, idx, status>>
+               /\ UNCHANGED <<envst, run, var, target, fs0, cur, loose, sub, idx, status>>
 
 \* DeferredFileWriter.write(): while open_files: popleft; _write_file
 Qeff == IF DevRouteDiscard /\ var.route = "symdir" THEN <<>> ELSE queue
@@ -199,7 +226,7 @@ FlushBegin == /\ Running /\ sub = "idle" /\ NextStage = "flush"
                  THEN /\ pc' = pc + 1 /\ Done("flush") /\ queue' = <<>> /\ UNCHANGED <<cur, sub, idx>>
                  ELSE /\ cur' = Head(Qeff) /\ queue' = Tail(Qeff) /\ sub' = "find" /\ idx' = 0
                       /\ pc' = pc /\ Micro("flush")
-              /\ UNCHANGED <<run, var, target, fs0, fs, loose, status>>
+              /\ UNCHANGED <<envst, run, var, target, fs0, fs, loose, status>>
 \* _find_free_path: candidate 0 is the path itself, then #name.1#, #name.2# ... until one does not exist
 Cand == IF idx = 0 THEN cur.target ELSE Bk(cur.target, idx)
 FlushFind == /\ Running /\ sub = "find"
@@ -212,22 +239,34 @@ FlushFind == /\ Running /\ sub = "find"
                 ELSE IF fs[Cand] = "absent" THEN sub' = (IF idx = 0 THEN "move" ELSE "backup") /\ idx' = idx
                 ELSE idx < NBk /\ idx' = idx + 1 /\ sub' = sub
              /\ Micro("flush")
-             /\ UNCHANGED <<run, var, target, fs0, fs, queue, cur, loose, pc, status>>
-FlushBackup == /\ Running /\ sub = "backup"
-               /\ fs' = [fs EXCEPT ![Bk(cur.target, idx)] = fs[cur.target], ![cur.target] = "absent"]
+             /\ UNCHANGED <<envst, run, var, target, fs0, fs, queue, cur, loose, pc, status>>
+FlushBackup == /\ Running /\ sub = "backup" /\ ~EnvBlocks
+               /\ IF DevBackupSkip /\ envst = "out_ro" THEN fs' = fs
+                  ELSE fs' = [fs EXCEPT ![Bk(cur.target, idx)] = fs[cur.target], ![cur.target] = "absent"]
                /\ sub' = "move" /\ Micro("flush")
-               /\ UNCHANGED <<run, var, target, fs0, queue, cur, loose, pc, idx, status>>
-FlushMove == /\ Running /\ sub = "move"
+               /\ UNCHANGED <<envst, run, var, target, fs0, queue, cur, loose, pc, idx, status>>
+FlushMove == /\ Running /\ sub = "move" /\ ~EnvBlocks
              /\ fs' = [fs EXCEPT ![cur.target] = IF cur.content = "buffered" /\ var.dev = "cross" THEN PartC ELSE cur.content]
              /\ IF queue = <<>>
                 THEN /\ cur' = Nil /\ sub' = "idle" /\ pc' = pc + 1 /\ Done("flush") /\ UNCHANGED <<queue, idx>>
                 ELSE /\ cur' = Head(queue) /\ queue' = Tail(queue) /\ sub' = "find" /\ idx' = 0 /\ pc' = pc /\ Micro("flush")
-             /\ UNCHANGED <<run, var, target, fs0, loose, status>>
+             /\ UNCHANGED <<envst, run, var, target, fs0, loose, status>>
 
 StageStep == Work \/ OpenDeferred \/ PlainOpen \/ WriteBegin \/ WriteEnd \/ CloseHandle \/ FlushBegin \/ FlushFind \/ FlushBackup \/ FlushMove
 
+\* what an exception leaving the program does to the state (raised by the harness or by the program itself)
+Abort(s, w) ==
+  /\ status' = "crashed"
+  /\ loose' = IF cur # Nil THEN Append(loose, Closed(cur.content)) ELSE loose
+  /\ cur' = Nil
+  \* the exception leaves the `with` block: an open handle is closed on the way out
+  /\ queue' = [i \in 1..Len(queue) |-> [queue[i] EXCEPT !.content = Closed(@)]]
+  /\ fs' = [p \in AllPaths |-> Closed(fs[p])]
+  /\ last' = [kind |-> "crash", stage |-> s, when |-> w]
+  /\ UNCHANGED <<envst, run, var, target, fs0, pc, sub, idx>>
 \* an exception leaves the program: before a stage, after a stage, or inside serialisation / commit
-CrashOK(pt) == IF Runs = 1 THEN TRUE ELSE IF run = 1 THEN pt \in Crash1 ELSE pt \in Crash2
+\* (an injected exception and an environment fault are not combined: faulty variants fail only by themselves)
+CrashOK(pt) == IF var.env # "stable" THEN FALSE ELSE IF Runs = 1 THEN TRUE ELSE IF run = 1 THEN pt \in Crash1 ELSE pt \in Crash2
 Crash(s, w) ==
   /\ Running
   /\ \/ w = "before" /\ sub = "idle" /\ s = NextStage /\ s # "-"
@@ -236,19 +275,26 @@ Crash(s, w) ==
      \/ w = "mid"    /\ sub = "part" /\ s = NextStage
      \/ w = "mid"    /\ sub = "move" /\ s = "flush" /\ s = NextStage
   /\ CrashOK([stage |-> s, when |-> w])
-  /\ status' = "crashed"
-  /\ loose' = IF cur # Nil THEN Append(loose, Closed(cur.content)) ELSE loose
-  /\ cur' = Nil
-  \* the exception leaves the `with` block: an open handle is closed on the way out
-  /\ queue' = [i \in 1..Len(queue) |-> [queue[i] EXCEPT !.content = Closed(@)]]
-  /\ fs' = [p \in AllPaths |-> Closed(fs[p])]
-  /\ last' = [kind |-> "crash", stage |-> s, when |-> w]
-  /\ UNCHANGED <<run, var, target, fs0, pc, sub, idx>>
+  /\ Abort(s, w)
 AnyCrash == \E s \in StageSet(var), w \in {"before", "after", "mid", "inside"} : Crash(s, w)
+
+\* ONE environment fault strikes at a stage boundary while the process is alive: at the start of the run (TMPDIR broken
+\* from the beginning but cached by the process) or right before the stage that needs the resource.  Staging-directory
+\* faults are admitted up to the creation of the temp file (afterwards the loss of the temp file only shows inside the
+\* flush, which the statement does not cover); the queue is therefore empty when they strike.
+FaultKinds == {"tmp_gone", "tmp_ro", "out_ro"}
+FaultPoint(k) == IF k = "out_ro" THEN {Stages(var)[1], "flush", "popen"} ELSE {Stages(var)[1], "open"}
+Fault(k) == /\ Running /\ sub = "idle" /\ var.env = "faulty" /\ envst = "ok" /\ NextStage \in FaultPoint(k)
+            /\ envst' = k
+            /\ last' = [kind |-> "fault", stage |-> NextStage, when |-> k]
+            /\ UNCHANGED <<run, var, target, fs0, fs, queue, cur, loose, pc, sub, idx, status>>
+AnyFault == \E k \in FaultKinds : Fault(k)
+\* the program fails by itself because of the environment: like any exception, and NOTHING else happens
+EnvFail == /\ Running /\ EnvBlocks /\ Abort(NextStage, "env")
 
 Finish == /\ Running /\ sub = "idle" /\ pc = Len(Stages(var)) /\ run = Runs
           /\ status' = "done" /\ last' = [kind |-> "finish", stage |-> "-", when |-> "-"]
-          /\ UNCHANGED <<run, var, target, fs0, fs, queue, cur, loose, pc, sub, idx>>
+          /\ UNCHANGED <<envst, run, var, target, fs0, fs, queue, cur, loose, pc, sub, idx>>
 
 \* history extension: a second call in the same process (QueuePersists) or in a fresh process
 NextRun == /\ status = "crashed" /\ run < Runs
@@ -259,8 +305,9 @@ NextRun == /\ status = "crashed" /\ run < Runs
            /\ loose' = IF QueuePersists THEN loose ELSE loose \o [i \in 1..Len(queue) |-> queue[i].content]
            /\ cur' = Nil /\ pc' = 0 /\ sub' = "idle" /\ idx' = 0 /\ status' = "running"
            /\ last' = [kind |-> "nextrun", stage |-> "-", when |-> "-"]
+           /\ envst' = "ok"
 
-Next == StageStep \/ AnyCrash \/ Finish \/ NextRun
+Next == StageStep \/ AnyCrash \/ AnyFault \/ EnvFail \/ Finish \/ NextRun
 Spec == Init /\ [][Next]_vars
 
 (* ------------------------------------------------------------------ *)
@@ -313,6 +360,11 @@ TargetWhole == (UsesBackup(var) /\ sub \notin {"backup", "move"}) =>
                   (fs[target] \in {fs0[target], NewC} /\ Reach(fs, target) \in {Reach(fs0, target), NewC})
 \* (7) success leaves no temporary file behind
 TmpClean == (status = "done") => (queue = <<>> /\ loose = <<>> /\ cur = Nil)
+\* (8) environment faults: a run that fails because its environment broke has touched nothing, and a run that reports
+\*     success - in whatever environment - has kept the file previously at the path under a free GROMACS backup name
+EnvFailClean == (status = "crashed" /\ last.when = "env") => fs = fs0
+SuccessHasBackup == (status = "done" /\ UsesBackup(var) /\ fs0[target] # "absent") =>
+                       \E i \in 1..NBk : fs0[Bk(target, i)] = "absent" /\ fs[Bk(target, i)] = fs0[target]
 \* the directory changes only in steps of the commit stages
 CommitOnly == [][ (fs' # fs) => (last'.stage \in CommitStages) ]_vars
 \* instance sanity: a free backup name always exists within the modelled bound
